@@ -27,6 +27,7 @@ CONSTANTS
   AllowInsert = FALSE
   Keyed = TRUE
   LateInitSel = TRUE
+  Late <- LateNone
   ReplayAtEnd = @ATEND@
 SYMMETRY WriterSymmetry
 INVARIANTS KeyCoherent FillAccounting ReadBack IndexCoherent NoCollision OccupiedIsLive NoStaleValues StreamIds Converged
